@@ -659,3 +659,15 @@ mp('eq-own4-swap-overload-order', 'own4/swap-overload-order.diff', 'C14,C20,C12,
 # the recording step of the three ScopedRemover<Dispatcher> add functions extracted into a private helper doAddItem(const Item &)
 mp('eq-own4-remover-additem-helper', 'own4/remover-additem-helper.diff', 'C15,C09,C16', 'silent')
 M.append(dict(id='own4var-additem-helper-no-lock', patch=_os.path.join(_P, 'own4var', 'additem-helper-no-lock.diff'), props='C15', expect='fire', rule='C15.P3'))
+# fourth audit round (moving code around, nested Impl structs, hand-written RAII classes, statement pairs -> sibling helpers, lambdas invoked in
+# place, macros, casts / comparisons respelled, metafunction rewrites): selftest/patches/eqagents4. Entries still reported are listed in
+# _EQ4_OPEN (DESIGN 10.5, fourth audit round) and are expected to come out as they do today until the rule is generalised.
+_EQ4_PROPS = {'A1': 'C01,C02,C03,C10,C19', 'A2': 'C04,C03,C01,C12', 'A3': 'C05,C06,C07,C08,C09,C11,C13', 'A4': 'C05,C06,C07,C08,C09,C10,C11,C13',
+              'A5': 'C14,C03,C10,C12,C04,C02', 'A6': 'C14,C05,C06,C07,C08,C09,C11', 'A7': 'C15,C16,C09', 'A8': 'C17,C18,C08,C20', 'A9': 'C12,C13,C08',
+              'A10': 'C02,C03,C12,C20,C04'}
+_EQ4_OPEN = ('A1-e2', 'A2-e3', 'A2-e4', 'A3-e1', 'A5-e3', 'A7-e2', 'A9-e3')
+for _a, _p in _EQ4_PROPS.items():
+    for _e in ('e1', 'e2', 'e3', 'e4'):
+        _f = _os.path.join(_P, 'eqagents4', '%s-%s.diff' % (_a, _e))
+        if _os.path.exists(_f) and '%s-%s' % (_a, _e) not in _EQ4_OPEN:
+            M.append(dict(id='eqagent4-%s-%s' % (_a, _e), patch=_f, props=_p, expect='silent', rule=None))
